@@ -1,6 +1,7 @@
 """pyvc.solve -- discharge obligations with z3 (primary) and cvc5 (cross-check / second opinion on unknowns)."""
 import importlib
 import os
+import sys
 import subprocess
 import tempfile
 import time
@@ -25,14 +26,20 @@ def _solver(timeout_ms):
 class _Cvc5Job:
     """cvc5 on an SMT-LIB2 text in a subprocess; can be abandoned"""
 
-    def __init__(self, smt, timeout_s):
+    def __init__(self, smt, timeout_s, variant="cli"):
         f = tempfile.NamedTemporaryFile("w", suffix=".smt2", delete=False, dir=os.environ.get("PYVC_TMP"))
         f.write(smt)
         f.close()
         self.path = f.name
         self.timeout_s = timeout_s
-        self.p = subprocess.Popen(["/usr/bin/cvc5", "--strings-exp", "--tlimit=%d" % int(timeout_s * 1000), self.path],
-                                  stdout=subprocess.PIPE, stderr=subprocess.PIPE, text=True)
+        self.variant = variant
+        if variant == "cli":            # /usr/bin/cvc5 1.0.3
+            cmd = ["/usr/bin/cvc5", "--strings-exp", "--tlimit=%d" % int(timeout_s * 1000), self.path]
+        elif variant == "cli-lazy":     # same binary, array-style reasoning about seq.nth
+            cmd = ["/usr/bin/cvc5", "--strings-exp", "--seq-array=lazy", "--tlimit=%d" % int(timeout_s * 1000), self.path]
+        else:                           # cvc5 1.4.x from the wheelhouse (python API), killed by us on timeout
+            cmd = [sys.executable, os.path.join(os.path.dirname(os.path.abspath(__file__)), "cvc5_runner.py"), self.path]
+        self.p = subprocess.Popen(cmd, stdout=subprocess.PIPE, stderr=subprocess.PIPE, text=True)
 
     def result(self, wait_s=None):
         try:
@@ -70,9 +77,34 @@ def _cvc5_smt(smt, timeout_s):
     return _Cvc5Job(smt, timeout_s).result()
 
 
+def _rewrite_unit_inv(text):
+    """z3's internal `((_ seq.unit-inv seq.unit-inv) X)` (the element of a unit sequence) is SMT-LIB `(seq.nth X 0)`"""
+    key = "((_ seq.unit-inv seq.unit-inv) "
+    while True:
+        i = text.find(key)
+        if i < 0:
+            return text
+        j = i + len(key)
+        depth, k = 0, j
+        while k < len(text):
+            c = text[k]
+            if c == "(":
+                depth += 1
+            elif c == ")":
+                if depth == 0:
+                    break
+                depth -= 1
+            elif c.isspace() and depth == 0 and k > j:
+                break
+            k += 1
+        arg = text[j:k]
+        end = text.index(")", k)
+        text = text[:i] + "(seq.nth " + arg + " 0)" + text[end + 1:]
+
+
 def _dump(solver):
     # z3 prints two internal variants of seq.nth (in-bounds / underspecified); both are SMT-LIB seq.nth
-    return "(set-logic ALL)\n" + solver.to_smt2().replace("seq.nth_i", "seq.nth").replace("seq.nth_u", "seq.nth")
+    return "(set-logic ALL)\n" + _rewrite_unit_inv(solver.to_smt2().replace("seq.nth_i", "seq.nth").replace("seq.nth_u", "seq.nth"))
 
 
 def check_valid(assumptions, goal, lemmas=(), timeout_ms=None, want_model=True, max_fuel=3, refute=True, thorough=False,
@@ -90,19 +122,61 @@ def check_valid(assumptions, goal, lemmas=(), timeout_ms=None, want_model=True, 
     t0 = time.time()
     neg = z3.Not(goal)
     base = list(assumptions) + [neg]
-    lem = [defs.forall_uf(*l) for _, l in lemmas]
+    # only lemmas that talk about functions occurring in the query (keeps quantifiers out of queries that cannot use them)
+    base_ids = defs.decl_ids(base + defs.instances(base, 1))
+    lem = [defs.forall_uf(*l) for _, l in lemmas if defs.lemma_relevant(l, base_ids)]
     cvc5_budget = 60 if thorough else 25
 
     def build(fuel):
         insts = defs.instances(base, fuel)
         s = _solver(min(timeout_ms, fuel_timeout_ms))
-        for f in base + lem + insts:
-            s.add(defs.to_uf(f))
-        return s, _dump(s)
+        ground = [defs.to_uf(f) for f in base + insts]
+        for f in ground:
+            s.add(f)
+        for f in lem:
+            s.add(f)
+        return s, _dump(s), ground
+
+    def certificate(s, ground):
+        """quantifier-free version of a query z3 has refuted: the ground part + the lemma instances of z3's refutation.
+        The query is re-run in a separate proof-producing z3 context; the `quant-inst` steps of the proof are the instances.
+        cvc5 then re-checks the certificate without trusting z3's reasoning (DESIGN appendix B)."""
+        if not lem:
+            return None
+        try:
+            pctx = z3.Context(proof=True)
+            ps = z3.Solver(ctx=pctx)
+            ps.set("timeout", 30000)
+            for f in ground + lem:
+                ps.add(f.translate(pctx))
+            if ps.check() != z3.unsat:
+                return None
+            gi = []
+            seen, stack = set(), [ps.proof()]
+            while stack:
+                e = stack.pop()
+                if e.get_id() in seen:
+                    continue
+                seen.add(e.get_id())
+                if z3.is_app(e):
+                    if e.decl().kind() == z3.Z3_OP_PR_QUANT_INST and e.num_args():
+                        f = e.children()[-1]
+                        if z3.is_or(f):
+                            gi.extend(c for c in f.children() if not (z3.is_not(c) and z3.is_quantifier(c.arg(0))))
+                    stack.extend(e.children())
+            main = z3.main_ctx()
+            sg = z3.Solver()
+            for f in ground:
+                sg.add(f)
+            for f in gi:
+                sg.add(f.translate(main))
+            return _dump(sg)
+        except Exception:
+            return None
 
     queries = {}
-    s1, smt1 = build(1)
-    queries[1] = (s1, smt1)
+    s1, smt1, ground1 = build(1)
+    queries[1] = (s1, smt1, ground1)
     has_seq = ("(Seq " in smt1) or ("seq." in smt1) or ("str." in smt1)
     need_cvc5 = has_seq or thorough
     jobs = {}
@@ -113,7 +187,7 @@ def check_valid(assumptions, goal, lemmas=(), timeout_ms=None, want_model=True, 
     for fuel in range(1, max_fuel + 1):
         if fuel not in queries:
             queries[fuel] = build(fuel)
-        s, smt = queries[fuel]
+        s, smt, ground = queries[fuel]
         rz = s.check()
         last = "z3:%s (fuel %d)" % (rz, fuel)
         if rz == z3.unsat:
@@ -133,17 +207,56 @@ def check_valid(assumptions, goal, lemmas=(), timeout_ms=None, want_model=True, 
                 if getattr(j, "_res", None) is None:
                     j.abandon()
                 del jobs[f]
-        if z_fuel not in jobs:
-            jobs[z_fuel] = _Cvc5Job(queries[z_fuel][1], cvc5_budget)
+        cert = certificate(queries[z_fuel][0], queries[z_fuel][2]) if has_seq else None
+        cert_smt = cert or queries[z_fuel][1]
+        if cert is not None:
+            # re-check the quantifier-free certificate rather than the quantified query
+            if z_fuel in jobs and getattr(jobs[z_fuel], "_res", None) is None:
+                jobs[z_fuel].abandon()
+            jobs[z_fuel] = _Cvc5Job(cert_smt, cvc5_budget)
+        elif z_fuel not in jobs:
+            jobs[z_fuel] = _Cvc5Job(cert_smt, cvc5_budget)
         j = jobs[z_fuel]
-        # z3 has the proof; cvc5 is asked for a second opinion within a shorter budget (its `unknown` is accepted)
-        rc = getattr(j, "_res", None) or j.result(wait_s=45 if thorough else 10)
+        # z3 has a proof, but its sequence solver has returned wrong `unsat`s (DESIGN appendix B): a Seq/String query counts as
+        # proved only when a cvc5 confirms it.  Portfolio: cvc5 1.0.3, then cvc5 1.0.3 --seq-array=lazy and cvc5 1.4 side by side.
+        rc = getattr(j, "_res", None) or j.result(wait_s=10)
         if rc == "unsat":
             return dict(status="proved", time_s=time.time() - t0, model=None, backend="z3+cvc5", fuel=z_fuel)
-        if rc != "sat":
+        if rc == "sat":
+            disagreement = True
+            last = "z3:unsat cvc5:sat (fuel %d)" % z_fuel
+        elif not has_seq:
+            # thorough tier on a pure datatype/arithmetic query: z3 is trusted there, cvc5's silence is recorded
             return dict(status="proved", time_s=time.time() - t0, model=None, backend="z3(cvc5:%s)" % rc, fuel=z_fuel)
-        disagreement = True
-        last = "z3:unsat cvc5:sat (fuel %d)" % z_fuel
+        else:
+            budget = 120 if thorough else 75
+            extra = [_Cvc5Job(cert_smt, budget, "cli-lazy"), _Cvc5Job(cert_smt, budget, "py")]
+            deadline = time.time() + budget + 5
+            verdict = None
+            while time.time() < deadline and verdict is None:
+                alive = False
+                for e in extra:
+                    if getattr(e, "_res", None) is not None:
+                        continue
+                    if e.p.poll() is None:
+                        alive = True
+                        continue
+                    e._res = e.result()
+                    if e._res in ("unsat", "sat"):
+                        verdict = (e._res, e.variant)
+                if not alive:
+                    break
+                time.sleep(0.05)
+            for e in extra:
+                if getattr(e, "_res", None) is None:
+                    e.abandon()
+            if verdict and verdict[0] == "unsat":
+                return dict(status="proved", time_s=time.time() - t0, model=None, backend="z3+cvc5(%s)" % verdict[1], fuel=z_fuel)
+            if verdict and verdict[0] == "sat":
+                disagreement = True
+                last = "z3:unsat cvc5(%s):sat (fuel %d)" % (verdict[1], z_fuel)
+            else:
+                last = "z3:unsat but no cvc5 confirms (fuel %d): a sequence query is not counted as proved on z3 alone" % z_fuel
     elif need_cvc5:
         for fuel in range(1, max_fuel + 1):
             j = jobs.get(fuel) or _Cvc5Job(queries[fuel][1], cvc5_budget)
